@@ -15,8 +15,8 @@ func init() { register("C47", c47) }
 func c47(r *core.Run) {
 	r.Explanation = "Decided clauses: (R1) no modulo bias by construction: getUint64RandomNumber and getBigRandomNumber contain no remainder/division/multiplication (native %, /, * or big.Int Mod/Rem/Div/Quo/Mul/Exp) — the random bytes reach the result only through big-endian loading, masking (AND) and comparison; " +
 		"(R2) rejection sampling: a value is returned from the sampling loop only under `random <= max` (Cmp(max) <= 0), every iteration draws fresh bytes, and a zero modulo raises ZeroModuloError before any byte is drawn for it; " +
-		"(R3) every arm of the type switches pairs sema.T with interpreter.TValue / NewTValue and the native width of the same type; (R4) the error of ReadRandom is turned into a panic on its non-nil edge."
-	r.NotDecided = "that the mask covers max exactly (bit-length arithmetic) and the uniformity of the distribution itself."
+		"(R3) every arm of the type switches pairs sema.T with interpreter.TValue / NewTValue and the native width of the same type; (R4) the error of ReadRandom is turned into a panic on its non-nil edge; (R5) the truncation mask is built by a recognised covering construction (covering loop, complete smear, (1<<Len64(max))-1; big path: Lsh(one, BitLen) − one applied by And before the comparison)."
+	r.NotDecided = "the uniformity of the distribution itself (given uniform source bytes); the byte count drawn per sample."
 	w := r.W
 	sp := w.Pkg("stdlib")
 	forbiddenBig := map[string]bool{"Mod": true, "Rem": true, "Div": true, "Quo": true, "Mul": true, "Exp": true, "QuoRem": true, "DivMod": true, "ModInverse": true}
@@ -121,4 +121,190 @@ func c47(r *core.Run) {
 	}
 	r.Floor("R4.readerr", 1)
 	_ = strings.TrimSpace
+	c47Mask(r)
+}
+
+// c47Mask: R5 — the truncation mask covers max exactly (an all-ones value of max's bit length), recognised by construction.
+// 64-bit path: the value ANDed with the loaded random word must be built by one of the idioms for which the property is a
+// lemma: (a) the covering loop  mask := 0; for max&mask != max { mask = mask<<1 | 1 }  (exit ⇒ mask ⊇ max; first such k ⇒
+// exact bit length; shape ⇒ all ones), (b) a complete bit smear of max (OR with its shifts by 1, 2, 4, 8, 16 and 32), or
+// (c) (1 << bits.Len64(max)) − 1. Big path: mask = Lsh(one, max.BitLen()) followed by Sub(mask, one), and the sampled value is
+// ANDed with that mask before it is compared with max. Any other construction is reported (it has to be reviewed).
+func c47Mask(r *core.Run) {
+	const rule = "R5.mask"
+	isConst := func(v ssa.Value, want string) bool {
+		c, ok := v.(*ssa.Const)
+		return ok && c.Value != nil && c.Value.ExactString() == want
+	}
+	strip := func(v ssa.Value) ssa.Value {
+		for {
+			switch x := v.(type) {
+			case *ssa.Convert:
+				v = x.X
+			case *ssa.ChangeType:
+				v = x.X
+			default:
+				return v
+			}
+		}
+	}
+	if fn := mustFn(r, rule, "stdlib", "", "getUint64RandomNumber"); fn != nil {
+		// the AND applied to the loaded random word
+		var masks []ssa.Value
+		var at []ssa.Instruction
+		core.Instrs(fn, false, func(in ssa.Instruction) {
+			bo, ok := in.(*ssa.BinOp)
+			if !ok || bo.Op != token.AND {
+				return
+			}
+			fromLoad := func(v ssa.Value) bool {
+				return strings.Contains(core.OriginLeavesVia(v), "via:Uint64")
+			}
+			switch {
+			case fromLoad(bo.X) && !fromLoad(bo.Y):
+				masks, at = append(masks, bo.Y), append(at, in)
+			case fromLoad(bo.Y) && !fromLoad(bo.X):
+				masks, at = append(masks, bo.X), append(at, in)
+			}
+		})
+		if len(masks) == 0 {
+			r.Bad(rule, "stdlib.getUint64RandomNumber: truncation of the random word", fn.Pos(), "the loaded random word is no longer truncated by a mask before the comparison with max: values above max dominate and the loop may not terminate quickly, or bits are dropped another way")
+		}
+		for i, m := range masks {
+			m = strip(m)
+			how := ""
+			// (a) covering loop
+			if phi, ok := m.(*ssa.Phi); ok && len(phi.Edges) == 2 {
+				var init, step ssa.Value
+				for _, e := range phi.Edges {
+					if isConst(strip(e), "0") {
+						init = e
+					} else {
+						step = strip(e)
+					}
+				}
+				if init != nil && step != nil {
+					if or, ok := step.(*ssa.BinOp); ok && or.Op == token.OR {
+						shl, c := strip(or.X), or.Y
+						if isConst(strip(or.X), "1") {
+							shl, c = strip(or.Y), or.X
+						}
+						if sb, ok := shl.(*ssa.BinOp); ok && sb.Op == token.SHL && strip(sb.X) == ssa.Value(phi) && isConst(strip(sb.Y), "1") && isConst(strip(c), "1") {
+							// exit condition: (max & mask) != max controls the loop body
+							exit := false
+							for _, b := range fn.Blocks {
+								if len(b.Instrs) == 0 {
+									continue
+								}
+								iff, ok := b.Instrs[len(b.Instrs)-1].(*ssa.If)
+								if !ok {
+									continue
+								}
+								cmp, ok := iff.Cond.(*ssa.BinOp)
+								if !ok || (cmp.Op != token.NEQ && cmp.Op != token.EQL) {
+									continue
+								}
+								and, ok := strip(cmp.X).(*ssa.BinOp)
+								other := strip(cmp.Y)
+								if !ok || and.Op != token.AND {
+									and, ok = strip(cmp.Y).(*ssa.BinOp)
+									other = strip(cmp.X)
+								}
+								if !ok || and.Op != token.AND {
+									continue
+								}
+								ax, ay := strip(and.X), strip(and.Y)
+								if (ax == ssa.Value(phi) && ay == other) || (ay == ssa.Value(phi) && ax == other) {
+									exit = true
+								}
+							}
+							if exit {
+								how = "covering loop: mask := 0; for max&mask != max { mask = mask<<1 | 1 }"
+							}
+						}
+					}
+				}
+			}
+			// (b) complete smear / (c) (1 << Len64(max)) - 1
+			if how == "" {
+				shifts := map[string]bool{}
+				var walk func(v ssa.Value, d int)
+				walk = func(v ssa.Value, d int) {
+					v = strip(v)
+					bo, ok := v.(*ssa.BinOp)
+					if !ok || d > 16 {
+						return
+					}
+					switch bo.Op {
+					case token.OR:
+						walk(bo.X, d+1)
+						walk(bo.Y, d+1)
+					case token.SHR:
+						if c, ok := strip(bo.Y).(*ssa.Const); ok && c.Value != nil {
+							shifts[c.Value.ExactString()] = true
+						}
+						walk(bo.X, d+1)
+					}
+				}
+				walk(m, 0)
+				complete := true
+				for _, s := range []string{"1", "2", "4", "8", "16", "32"} {
+					if !shifts[s] {
+						complete = false
+					}
+				}
+				if complete {
+					how = "complete bit smear of max (shifts 1, 2, 4, 8, 16, 32)"
+				}
+				if sub, ok := m.(*ssa.BinOp); ok && sub.Op == token.SUB && isConst(strip(sub.Y), "1") {
+					if shl, ok := strip(sub.X).(*ssa.BinOp); ok && shl.Op == token.SHL && isConst(strip(shl.X), "1") && strings.Contains(core.OriginLeavesVia(shl.Y), "via:Len64") {
+						how = "(1 << bits.Len64(max)) - 1"
+					}
+				}
+			}
+			r.Check(how != "", rule, "stdlib.getUint64RandomNumber: truncation mask #"+itoa(i+1), at[i].Pos(), "the mask is built by "+how,
+				"the mask applied to the random word is not built by a recognised covering construction (covering loop, complete smear, or (1<<Len64(max))-1): if it has holes or the wrong length some values below the modulo can never be returned, or the draw is biased")
+		}
+	}
+	if fn := mustFn(r, rule, "stdlib", "", "getBigRandomNumber"); fn != nil {
+		named := func(n string) func(*types.Func) bool {
+			return func(o *types.Func) bool {
+				return o != nil && o.Name() == n && o.Pkg() != nil && o.Pkg().Path() == "math/big"
+			}
+		}
+		ands := core.CallsTo(fn, false, named("And"))
+		cmps := core.CallsTo(fn, false, named("Cmp"))
+		ok, why := false, "the sampled big integer is no longer ANDed with the covering mask before it is compared with max"
+		for _, a := range ands {
+			args := a.Common().Args
+			if len(args) != 3 {
+				continue
+			}
+			mask := args[2]
+			lv := core.OriginLeavesVia(mask)
+			if !strings.Contains(lv, "via:Lsh") || !strings.Contains(lv, "via:BitLen") {
+				why = "the mask of the big path is not Lsh(one, max.BitLen())"
+				continue
+			}
+			// mask.Sub(mask, one) before the And
+			subbed := false
+			for _, s := range core.CallsTo(fn, false, named("Sub")) {
+				sa := s.Common().Args
+				if len(sa) == 3 && core.Unwrap(sa[0]) == core.Unwrap(mask) && core.Unwrap(sa[1]) == core.Unwrap(mask) && core.Dominates(s, a) {
+					subbed = true
+				}
+			}
+			if !subbed {
+				why = "the mask of the big path is not decremented to all ones (mask.Sub(mask, one)) before use"
+				continue
+			}
+			for _, c := range cmps {
+				if core.Dominates(a, c) && core.Unwrap(c.Common().Args[0]) == core.Unwrap(args[0]) {
+					ok = true
+				}
+			}
+		}
+		r.Check(ok, rule, "stdlib.getBigRandomNumber: truncation mask", fn.Pos(), "random.And(random, Lsh(one, max.BitLen()) - one) precedes the comparison with max", why+": values are truncated by another construction (e.g. masking only the top byte), which drops or keeps the wrong bits for byte-aligned moduli")
+	}
+	r.Floor(rule, 2)
 }
